@@ -71,6 +71,10 @@ Step ==
         \/ At(0)[2] \in {"abort", "stop", "halt"} /\ (ReqTerminate(At(0)[2]) \/ ReqTerminatePaused(At(0)[2]))
         \/ At(0)[2] = "suspend" /\ ReqSuspendT(At(0)[3], At(0)[4], At(0)[5])
         \/ At(0)[2] = "release" /\ ReleaseT(At(0)[3])
+        \/ At(0)[2] = "sus_install" /\ SusInstall(At(0)[3])
+        \/ At(0)[2] = "sus_remove" /\ SusRemove(At(0)[3])
+        \/ At(0)[2] = "sig_put" /\ SigPut(At(0)[3], At(0)[6])
+  \/ (\E f \in S.relq : SusRelease(f)) \/ SusCb \/ SusLand \/ SusRet      \* (silent ones are bounded: every future is released / lands once)
   \/ /\ Has(0) /\ At(0)[1] = "stat"
      /\ StatusDone(At(0)[6], At(0)[7] = 1)
   \/ /\ Has(0) /\ At(0)[1] = "req" /\ At(0)[2] = "update"
